@@ -70,6 +70,10 @@ def gen_gene(rng, lo, hi, idx, seqname, coding):
     gtype = "protein_coding" if coding else rng.choice(NONCODING)
     for t in txs:
         t["transcript_type"] = "protein_coding" if coding else gtype
+    if not coding and len(txs) == 2 and rng.random() < 0.3:
+        # a non-coding gene with one isoform on each strand (an exact tie): the statement does not say which way round the
+        # gene row is then written (either is accepted), but it must be the same way round in every process
+        txs[1]["strand"] = "MINUS" if txs[0]["strand"] == "PLUS" else "PLUS"
     return {
         "transcripts": txs,
         "gene_id": f"gene{idx}" if rng.random() < 0.8 else None,
@@ -441,7 +445,8 @@ def check_text(text, case):
             ghi = max(t["exon_ends"][-1] for t in g["transcripts"])
             exp = _tbl_intervals([(glo, ghi)], strand)
             got = [[a, b] for a, b, _, _ in gf["intervals"]]
-            if got != exp:
+            mixed = len({t["strand"] for t in g["transcripts"]}) > 1
+            if got != exp and not (mixed and got == _tbl_intervals([(glo, ghi)], "MINUS" if strand == "PLUS" else "PLUS")):
                 bad("gene_interval", f"{got} != {exp} strand {strand}")
             if any(p5 or p3 for _, _, p5, p3 in gf["intervals"]):
                 bad("gene_partial_mark")
